@@ -4,7 +4,9 @@ import (
 	"context"
 	"fmt"
 	"math/rand"
+	"runtime"
 	"strings"
+	"sync"
 	"sync/atomic"
 	"time"
 	"unicode/utf8"
@@ -138,6 +140,122 @@ func transposition(r *rand.Rand, p ref.Pos) ([]ref.Move, bool) {
 	return nil, false
 }
 
+// engineFENReaders: one goroutine plays a game fixed in advance (moves and take-backs) on an engine while two
+// others keep asking the engine for its FEN. The engine serialises its calls itself, so every FEN read must be
+// the standard FEN of one of the states the game goes through (the set is known before the readers start), and
+// a reader never sees the game go back to a state it has passed unless the script does. Run under the race build.
+func engineFENReaders(c *fw.Ctx, r *rand.Rand, start ref.Pos, bias gen.Bias, steps int) {
+	ctx := context.Background()
+	e := recipes[0].newEngine(ctx, engine.Options{Depth: 1, Hash: 0}, 0, nil)
+	if err := e.Reset(ctx, start.FEN()); err != nil {
+		return
+	}
+	type op struct {
+		back bool
+		mv   string
+	}
+	var ops []op
+	g := ref.NewGame(start)
+	allowed := map[string][]int{start.FEN(): {0}} // FEN -> the steps after which it is the game's FEN
+	for i := 0; i < steps; i++ {
+		if r.Intn(5) == 0 && g.Plies() > 0 {
+			g.Pop()
+			ops = append(ops, op{back: true})
+		} else {
+			ms := g.Cur.LegalMoves()
+			if len(ms) == 0 {
+				break
+			}
+			cur := g.Cur
+			m := gen.Pick(r, &cur, ms, bias, nil)
+			g.Push(m)
+			ops = append(ops, op{mv: m.String()})
+		}
+		allowed[g.Cur.FEN()] = append(allowed[g.Cur.FEN()], len(ops))
+	}
+	final := g.Cur.FEN()
+	var done atomic.Int64 // number of operations completed by the player
+	var started atomic.Int64
+	stop := make(chan struct{})
+	var wg sync.WaitGroup
+	type bad struct{ fen, why string }
+	bads := make(chan bad, 8)
+	var reads atomic.Int64
+	seen := make([]map[string]bool, 2)
+	for w := 0; w < 2; w++ {
+		seen[w] = map[string]bool{}
+		wg.Add(1)
+		go func(w int) {
+			defer wg.Done()
+			for {
+				select {
+				case <-stop:
+					return
+				default:
+				}
+				lo := done.Load() // operations certainly finished before the call
+				f := e.Position()
+				hi := started.Load() // operations possibly begun before it returned
+				reads.Add(1)
+				seen[w][f] = true
+				at, ok := allowed[f]
+				if !ok {
+					select {
+					case bads <- bad{f, "is not the FEN of any state of the game"}:
+					default:
+					}
+					continue
+				}
+				inWindow := false
+				for _, k := range at {
+					if int64(k) >= lo && int64(k) <= hi {
+						inWindow = true
+					}
+				}
+				if !inWindow {
+					select {
+					case bads <- bad{f, fmt.Sprintf("is the game's FEN only after steps %v, but between %d and %d operations had been carried out", at, lo, hi)}:
+					default:
+					}
+				}
+			}
+		}(w)
+	}
+	okPlay := true
+	for _, o := range ops {
+		started.Add(1)
+		var err error
+		if o.back {
+			err = e.TakeBack(ctx)
+		} else {
+			err = e.Move(ctx, o.mv)
+		}
+		done.Add(1)
+		if err != nil {
+			okPlay = false
+			break
+		}
+		if r.Intn(4) == 0 {
+			runtime.Gosched()
+		}
+	}
+	close(stop)
+	wg.Wait()
+	close(bads)
+	c.Eval(int(reads.Load()))
+	c.Count("reader_sessions", 1)
+	c.Count("reader_fens_read", int(reads.Load()))
+	c.Count("reader_distinct_states_read", len(seen[0])+len(seen[1]))
+	for b := range bads {
+		c.Violate("enginefen:concurrent-read", "while another goroutine plays the game, Position() returned %q, which %s (start %q, %d operations)", b.fen, b.why, start.FEN(), len(ops))
+	}
+	if okPlay {
+		if got := e.Position(); got != final {
+			c.Violate("enginefen:position", "after the concurrent session the engine reports %q, the game's FEN is %q", got, final)
+		}
+	}
+}
+
 func engineFENSession(c *fw.Ctx, r *rand.Rand, start ref.Pos, bias gen.Bias, steps int) {
 	ctx := context.Background()
 	e := recipes[0].newEngine(ctx, engine.Options{Depth: 1, Hash: 0}, 0, nil)
@@ -265,13 +383,15 @@ func init() {
 		Assumptions: []string{"reference FEN printer and game model (package ref)"},
 		Setup:       validateOracle,
 		Timeout:     minutes(10, 60),
+		RaceKinds:   map[string]bool{"readers": true},
 		Cases: func(tier string, seed int64) []fw.Case {
 			l := mkCases(nil, "roundtrip", 32, seed, pick(tier, 2000, 160000))
 			l = mkCases(l, "engine", 32, seed, pick(tier, 50, 2400))
+			l = mkCases(l, "readers", 8, seed, pick(tier, 6, 300))
 			return l
 		},
 		Floors: func(string) map[string]int64 {
-			return map[string]int64{"roundtrips": 5000, "with_ep": 100, "partial_rights": 300, "black_to_move": 1000, "engine_fen_checks": 5000, "engine_castles": 10, "engine_takebacks": 100, "engine_ep": 1, "engine_fen_during_analysis": 100, "engine_fen_transpositions": 50}
+			return map[string]int64{"reader_sessions": 20, "reader_fens_read": 2000, "reader_distinct_states_read": 100, "roundtrips": 5000, "with_ep": 100, "partial_rights": 300, "black_to_move": 1000, "engine_fen_checks": 5000, "engine_castles": 10, "engine_takebacks": 100, "engine_ep": 1, "engine_fen_during_analysis": 100, "engine_fen_transpositions": 50}
 		},
 		Run: func(c *fw.Ctx, cs fw.Case) {
 			r := cs.Rand()
@@ -292,6 +412,11 @@ func init() {
 					if i == 0 && cs.Idx%16 == 0 {
 						c.Sample(map[string]any{"kind": "roundtrip", "fen": p.FEN()})
 					}
+				}
+			case "readers":
+				for i := 0; i < cs.N; i++ {
+					start, bias, plies := gameStart(r, i)
+					engineFENReaders(c, r, start, bias, min(plies, 150))
 				}
 			case "engine":
 				for i := 0; i < cs.N; i++ {
